@@ -20,6 +20,7 @@ REPO = os.environ.get("SEGVC_REPO", "/repo")
 A = "src/anyio/_backends/_asyncio.py"
 M = "src/anyio/streams/memory.py"
 B = "src/anyio/streams/buffered.py"
+T = "src/anyio/_core/_tasks.py"
 S = "src/anyio/_core/_synchronization.py"
 
 # (id, property, kind, file, old, new, what)
@@ -78,6 +79,18 @@ MUTANTS = [
     ("C16-receive-ignores-max-bytes", "C16", "break", B, "            chunk = bytes(self._buffer[:max_bytes])\n            del self._buffer[:max_bytes]", "            chunk = bytes(self._buffer)\n            del self._buffer[:]", "receive returns more than max_bytes"),
     ("C16-rename-local", "C16", "harmless", B, "            chunk = bytes(self._buffer[:max_bytes])\n            del self._buffer[:max_bytes]\n            return chunk", "            head = bytes(self._buffer[:max_bytes])\n            del self._buffer[:max_bytes]\n            return head", "local renamed"),
     ("C16-len-via-variable", "C16", "harmless", B, "                del self._buffer[: index + len(delimiter) :]", "                del self._buffer[: index + delimiter_size]", "same slice written with the cached length"),
+    # ---------------------------------------------------------------- C04 / C06 cancel scopes
+    ("C04-visibility-ignores-shield", "C04", "break", A, "            self._parent_scope is not None\n            and not self.shield\n            and self._parent_scope._effectively_cancelled", "            self._parent_scope is not None\n            and self._parent_scope._effectively_cancelled", "a shielded scope defers to a cancelled parent instead of absorbing its own cancellation"),
+    ("C04-absorbs-native-cancellation", "C04", "break", A, "                    if isinstance(exc_val, CancelledError) and is_anyio_cancellation(\n                        exc_val\n                    ):", "                    if isinstance(exc_val, CancelledError):", "a native CancelledError is swallowed by a cancelled scope"),
+    ("C04-caught-on-pass-through", "C04", "break", A, "                        self._cancelled_caught = True\n                        return True\n                    else:\n                        return False", "                        self._cancelled_caught = True\n                        return True\n                    else:\n                        self._cancelled_caught = True\n                        return False", "cancelled_caught set although nothing was absorbed"),
+    ("C04-shield-checked-before-own-flag", "C04", "break", A, "            if cancel_scope._cancel_called:\n                return True\n\n            if cancel_scope.shield:\n                return False", "            if cancel_scope.shield:\n                return False\n\n            if cancel_scope._cancel_called:\n                return True", "a shielded scope that was itself cancelled is not effectively cancelled"),
+    ("C04-exit-keeps-host-in-scope", "C04", "break", A, "            self._tasks.remove(self._host_task)\n            if self._parent_scope is not None:", "            if self._parent_scope is not None:", "the host task stays a member of the scope it left"),
+    ("C04-rename-local", "C04", "harmless", A, "        cancel_scope: CancelScope | None = self\n        while cancel_scope is not None:\n            if cancel_scope._cancel_called:\n                return True\n\n            if cancel_scope.shield:\n                return False\n\n            cancel_scope = cancel_scope._parent_scope\n\n        return False", "        scope: CancelScope | None = self\n        while scope is not None:\n            if scope._cancel_called:\n                return True\n\n            if scope.shield:\n                return False\n\n            scope = scope._parent_scope\n\n        return False", "cursor variable of the walk renamed"),
+    ("C06-timeout-strict-comparison", "C06", "break", A, "            if loop.time() >= self._deadline:\n                self.cancel(\"deadline exceeded\")", "            if loop.time() > self._deadline:\n                self.cancel(\"deadline exceeded\")", "a timer firing exactly at the deadline re-arms instead of cancelling"),
+    ("C06-exit-leaves-timer-armed", "C06", "break", A, "            self._active = False\n            if self._timeout_handle:\n                self._timeout_handle.cancel()\n                self._timeout_handle = None\n", "            self._active = False\n", "the deadline timer survives the scope"),
+    ("C06-setter-keeps-old-timer", "C06", "break", A, "        self._deadline = float(value)\n        if self._timeout_handle is not None:\n            self._timeout_handle.cancel()\n            self._timeout_handle = None\n", "        self._deadline = float(value)\n", "assigning a deadline does not re-arm"),
+    ("C06-effective-deadline-break-before-min", "C06", "break", A, "            deadline = min(deadline, cancel_scope.deadline)\n            if cancel_scope._cancel_called:\n                deadline = -math.inf\n                break\n            elif cancel_scope.shield:\n                break\n            else:\n                cancel_scope = cancel_scope._parent_scope", "            if cancel_scope._cancel_called:\n                deadline = -math.inf\n                break\n            elif cancel_scope.shield:\n                break\n            else:\n                deadline = min(deadline, cancel_scope.deadline)\n                cancel_scope = cancel_scope._parent_scope", "a shielded scope's own deadline is dropped from current_effective_deadline()"),
+    ("C06-fail-at-tests-cancel-called", "C06", "break", T, "    if cancel_scope.cancelled_caught and current_time() >= cancel_scope.deadline:", "    if cancel_scope.cancel_called and current_time() >= cancel_scope.deadline:", "TimeoutError although the scope did not absorb its own cancellation"),
 ]
 
 
